@@ -98,3 +98,17 @@ Example ex_sym_hypotheses :
   (forall a b c d, SPair a b = SPair c d -> a = c /\ b = d) /\
   (forall a b c d, SBlk a b = SBlk c d -> a = c /\ b = d).
 Proof. split; [exact sym_eqb_spec|]. split; intros a b c d H; inversion H; auto. Qed.
+
+From Verif Require Import Gen.MutPins.
+From Coq Require Import String.
+(* Fingerprints (AST, comments and docstrings excluded) of the source functions this model
+   transcribes by hand, regenerated from /repo on every run (harness/translate/mutpins.py):
+   the model was written for exactly these versions of them. *)
+Theorem model_pins_current :
+  pins_C10 =
+  [("retrieve_validate_block", "9163920a4c81325b")%string;
+   ("retrieve_try_to_validate_prefix", "bd285a7dbf4e5606")%string;
+   ("servermap_got_signature_one_share", "df7d2e01521ee153")%string;
+   ("servermap_try_to_set_pubkey", "9b3fe4c5d6331ab7")%string].
+Proof. reflexivity. Qed.
+Print Assumptions model_pins_current.
